@@ -124,6 +124,9 @@ Lemma ext_rbuf s x : ext s (set_rbuf s x). Proof. ext_field. Qed.
 Lemma ext_nowc s x : ext s (set_nowc s x). Proof. ext_field. Qed.
 Lemma ext_counts s h m : ext s (set_counts s h m). Proof. ext_field. Qed.
 Lemma ext_queue s x : ext s (set_queue s x). Proof. ext_field. Qed.
+Lemma ext_hand s x : ext s (set_hand s x). Proof. ext_field. Qed.
+Lemma ext_sec s x : ext s (set_sec s x). Proof. ext_field. Qed.
+Lemma ext_secerrs s x : ext s (set_secerrs s x). Proof. ext_field. Qed.
 Lemma ext_mapdel s k : ext s (set_smap s (map_del (smap s) k)).
 Proof.
   split; [reflexivity|]. split; [reflexivity|]. split; [intros id0 e0 H0; exists e0; auto|split; [|split; [intros e0 H0; exists e0; auto|split; [|reflexivity]]]].
@@ -137,7 +140,7 @@ Lemma same_kv_nvm b : same_kv (fun e => e_nvm e b). Proof. intro e. repeat split
 Lemma same_kv_pw w : same_kv (fun e => e_pw e w). Proof. intro e. repeat split. Qed.
 
 Ltac ext_step := first [ apply ext_refl | apply ext_pol | apply ext_whl | apply ext_rbuf | apply ext_nowc
-                       | apply ext_counts | apply ext_queue | apply ext_mapdel
+                       | apply ext_counts | apply ext_queue | apply ext_hand | apply ext_sec | apply ext_secerrs | apply ext_mapdel
                        | apply ext_upd; first [apply same_kv_removed | apply same_kv_deleted | apply same_kv_nvm | apply same_kv_pw] ].
 
 Lemma removeEntry_ext s id reason now : ext s (fst (removeEntry s id reason now)).
@@ -153,7 +156,9 @@ Proof.
   assert (E3 : ext s s3) by (unfold s3; destruct (scheduled (whl s2) id); [eapply ext_trans; [exact E2|ext_step]|exact E2]).
   destruct (reason =? reasonREMOVED); cbn [fst].
   - eapply ext_trans; [exact E3|ext_step].
-  - destruct (map_get (smap s3) (skey e)) as [id'|]; [|exact E3].
+  - destruct ((reason =? reasonEVICTED) && hyb s3 && negb (f_nvm e) && (Z.of_nat (length (hand s3)) <? 256)); cbn [fst];
+      [eapply ext_trans; [exact E3|ext_step]|].
+    destruct (map_get (smap s3) (skey e)) as [id'|]; [|exact E3].
     destruct (id' =? id); cbn [fst]; [eapply ext_trans; [exact E3|ext_step]|exact E3].
 Qed.
 
@@ -192,8 +197,10 @@ Proof.
   set (s2' := if wresched it && (sexpire e =? 0) && scheduled (whl s2) (wsid it)
               then set_whl s2 (deschedule (whl s2) (wsid it)) else s2).
   assert (E2' : ext s s2') by (unfold s2'; destruct (wresched it && (sexpire e =? 0) && scheduled (whl s2) (wsid it)); [eapply ext_trans; [exact E2|ext_step]|exact E2]).
-  set (s3 := upd_ent s2' (wsid it) (fun e0 => e_pw e0 (s64 (spw e + wcost it)))).
-  assert (E3 : ext s s3) by (eapply ext_trans; [exact E2'|unfold s3; ext_step]).
+  set (s2n := upd_ent s2' (wsid it) (fun e0 => e_nvm e0 false)).
+  assert (E2n : ext s s2n) by (eapply ext_trans; [exact E2'|unfold s2n; ext_step]).
+  set (s3 := upd_ent s2n (wsid it) (fun e0 => e_pw e0 (s64 (spw e + wcost it)))).
+  assert (E3 : ext s s3) by (eapply ext_trans; [exact E2n|unfold s3; ext_step]).
   set (s4 := if wresched it && negb (sexpire e =? 0) then set_whl s3 (schedule (whl s3) (wsid it) (sexpire e)) else s3).
   assert (E4 : ext s s4) by (unfold s4; destruct (wresched it && negb (sexpire e =? 0)); [eapply ext_trans; [exact E3|ext_step]|exact E3]).
   destruct (negb (tracked s4 (wsid it))); [exact E4|].
@@ -272,6 +279,28 @@ Proof. unfold get_ent. intro H. apply find_some in H. lia. Qed.
 Lemma get_ent_in s id e : get_ent s id = Some e -> In e (ents s).
 Proof. unfold get_ent. intro H. apply find_some in H. apply H. Qed.
 
+(* the secondary-copy invalidation and the event send touch neither entries nor the map *)
+Lemma smap_si x k n it : smap (send (invalidate x k n) it) = smap x.
+Proof. unfold invalidate. destruct (_ && _); reflexivity. Qed.
+Lemma ents_si x k n it : ents (send (invalidate x k n) it) = ents x.
+Proof. unfold invalidate. destruct (_ && _); reflexivity. Qed.
+Lemma get_ent_si x k n it id : get_ent (send (invalidate x k n) it) id = get_ent x id.
+Proof. unfold get_ent. rewrite ents_si. reflexivity. Qed.
+Lemma nextid_si x k n it : nextid (send (invalidate x k n) it) = nextid x.
+Proof. unfold invalidate. destruct (_ && _); reflexivity. Qed.
+Lemma scap_si x k n it : scap (send (invalidate x k n) it) = scap x.
+Proof. unfold invalidate. destruct (_ && _); reflexivity. Qed.
+Lemma nowc_si x k n it : nowc (send (invalidate x k n) it) = nowc x.
+Proof. unfold invalidate. destruct (_ && _); reflexivity. Qed.
+Lemma hits_si x k n it : hits (send (invalidate x k n) it) = hits x.
+Proof. unfold invalidate. destruct (_ && _); reflexivity. Qed.
+Lemma misses_si x k n it : misses (send (invalidate x k n) it) = misses x.
+Proof. unfold invalidate. destruct (_ && _); reflexivity. Qed.
+Lemma queue_si x k n it : queue (send (invalidate x k n) it) = queue x ++ [it].
+Proof. unfold invalidate. destruct (_ && _); reflexivity. Qed.
+Lemma sclosed_si x k n it : sclosed (send (invalidate x k n) it) = sclosed x.
+Proof. unfold invalidate. destruct (_ && _); reflexivity. Qed.
+
 (* the write section *)
 Lemma set_section_Rinv s L k v cost expire now h dk nvm :
   Rinv s L ->
@@ -285,10 +314,10 @@ Proof.
     destruct (updateExpire (sexpire e) expire now) as [ex rs].
     set (f := fun e0 => e_weight (e_val (e_expire e0 ex) v) cost).
     assert (Hf : forall e0, sid (f e0) = sid e0) by (intro; reflexivity).
-    cbv beta iota. split; [|split; [|exact D]].
-    + intros k' id' H. cbn [send smap set_queue] in H. change (smap (upd_ent s id f)) with (smap s) in H.
+    cbv beta iota. split; [|split; [|rewrite smap_si; exact D]].
+    + intros k' id' H. rewrite smap_si in H. change (smap (upd_ent s id f)) with (smap s) in H.
       destruct (R k' id' H) as (e' & G' & Si' & K' & V').
-      change (get_ent (send (upd_ent s id f) _) id') with (get_ent (upd_ent s id f) id').
+      rewrite get_ent_si.
       rewrite get_ent_upd by exact Hf. rewrite G'.
       destruct (Z.eqb_spec (sid e') id) as [Eq|Ne].
       * exists (f e'). split; [reflexivity|]. assert (e' = e) by congruence. subst e'.
@@ -297,13 +326,15 @@ Proof.
         assert (k' <> k).
         { intro Ek. rewrite Ek in H. rewrite Em in H. inversion H. congruence. }
         rewrite map_get_set_other by auto. exact V'.
-    + intros e' H. cbn [send ents set_queue] in H. unfold upd_ent in H. cbn [ents set_ents] in H.
+    + intros e' H. rewrite ents_si in H. unfold upd_ent in H. cbn [ents set_ents] in H.
       apply in_map_iff in H. destruct H as (e0 & <- & H0).
-      change (nextid (send _ _)) with (nextid s). destruct (sid e0 =? id); [rewrite Hf|]; apply F, H0.
+      rewrite nextid_si. change (nextid (upd_ent s id f)) with (nextid s). destruct (sid e0 =? id); [rewrite Hf|]; apply F, H0.
   - destruct dk; cbn [negb]; cbv beta iota; [|exact (conj R (conj F D))].
-    split; [|split; [|cbn [send smap set_queue set_nextid set_smap]; apply NoDup_keys_set, D]].
-    + intros k' id' H. cbn [send smap set_queue set_nextid set_smap] in H.
-      change (get_ent (send _ _) id') with
+    split; [|split; [|rewrite smap_si; cbn [smap set_nextid set_smap]; apply NoDup_keys_set, D]].
+    + intros k' id' H. rewrite smap_si in H. cbn [smap set_nextid set_smap] in H.
+      rewrite get_ent_si.
+      change (get_ent (set_nextid (set_smap (set_ents s (mkE (nextid s) k v cost expire 0 h false false false :: ents s))
+                                            (map_set (smap s) k (nextid s))) (nextid s + 1)) id') with
         (find (fun e => sid e =? id') (mkE (nextid s) k v cost expire 0 h false false false :: ents s)).
       destruct (Z.eq_dec k' k) as [->|Hne].
       * rewrite map_get_set_same in H. inversion H. subst id'. cbn [find sid]. rewrite Z.eqb_refl.
@@ -312,7 +343,7 @@ Proof.
         cbn [find sid]. destruct (Z.eqb_spec (nextid s) id') as [Eq|Ne].
         -- exfalso. pose proof (F e' (get_ent_in s id' e' G')). lia.
         -- exists e'. split; [exact G'|]. repeat split; auto. rewrite map_get_set_other by auto. exact V'.
-    + intros e' H. cbn [send ents set_queue set_nextid set_smap set_ents nextid] in *.
+    + intros e' H. rewrite ents_si in H. rewrite nextid_si. cbn [ents set_nextid set_smap set_ents nextid] in *.
       destruct H as [<-|H]; [cbn; lia|]. pose proof (F e' H). lia.
 Qed.
 
@@ -496,6 +527,7 @@ Proof.
   assert (E3 : smap s3 = smap s).
   { unfold s3, s2, s1. destruct (scheduled _ _), (tracked _ _); reflexivity. }
   destruct (reason =? reasonREMOVED); cbn [fst]; [exact E3|].
+  destruct ((reason =? reasonEVICTED) && hyb s3 && negb (f_nvm e) && (Z.of_nat (length (hand s3)) <? 256)); cbn [fst]; [exact E3|].
   rewrite E3. destruct (map_get (smap s) (skey e)) as [id'|] eqn:Em; [|exact E3].
   destruct (Z.eqb_spec id' id) as [->|N]; [congruence|exact E3].
 Qed.
